@@ -58,17 +58,27 @@ class Parameter:
             self.upper = upper
             self.lower = lower
             self.width = upper - lower
-            self.proposal = self.boundary_proposal
             self.bounded = True
+            self.select_proposal()
         else:
             warn("Upper limit must be greater than lower limit")
 
     def remove_boundaries(self):
-        self.proposal = self.standard_proposal
         self.bounded = False
         self.upper = 0.0
         self.lower = 0.0
         self.width = 0.0
+        self.select_proposal()
+
+    def select_proposal(self):
+        # choose the proposal from all limits currently in force, so that setting
+        # or clearing one kind of limit never discards the other
+        if self.bounded:
+            self.proposal = self.boundary_proposal
+        elif self._non_negative:
+            self.proposal = self.abs_proposal
+        else:
+            self.proposal = self.standard_proposal
 
     @property
     def non_negative(self):
@@ -78,10 +88,7 @@ class Parameter:
     def non_negative(self, value):
         if type(value) is bool:
             self._non_negative = value
-            if self._non_negative is True:
-                self.proposal = self.abs_proposal
-            else:
-                self.proposal = self.standard_proposal
+            self.select_proposal()
         else:
             warn("non_negative must have a boolean value")
 
